@@ -92,9 +92,13 @@ def stepTok (st : List Pipe) (tok : String) : Option (List Pipe) :=
   let rest := (tok.drop 1).toString
   match tok.front with
   | 'L' => rest.toNat?.map fun i => Pipe.leaf i :: st
-  | 'D' => (rest.takeWhile Char.isDigit).toString.toNat?.map fun f => Pipe.debug f :: st   -- `D<fmt>[f]`
+  | 'D' =>
+    -- `D<fmt>[f]`; `Dx…` = from_debug with a misspelled / unknown parameter name: the build is an error
+    if rest.startsWith "x" then some (Pipe.leaf 1000000000 :: st)
+    else (rest.takeWhile Char.isDigit).toString.toNat?.map fun f => Pipe.debug f :: st
   | 'U' => match st with
-    | p :: st => some (Pipe.update p :: st)
+    -- `Ux…` = update_properties with a misspelled / unknown parameter name: the build is an error
+    | p :: st => some ((if rest.startsWith "x" then Pipe.filterBBox .err p else Pipe.update p) :: st)
     | [] => none
   | 'Z' =>
     match rest.splitOn ":", st with
